@@ -90,6 +90,7 @@ func (m *Matcher) eqTerms(a, b *Term) (bool, string) {
 		}
 		excl := append([]atomRec{}, m.Env.Atoms...)
 		m.Env.Atoms = nil
+		exactFloat = m.Exact
 		va := m.Env.Eval(a)
 		atA := filterAtoms(m.Env.Atoms, excl)
 		m.Env.Atoms = nil
@@ -102,7 +103,6 @@ func (m *Matcher) eqTerms(a, b *Term) (bool, string) {
 		vb := m.Env.Eval(b)
 		atB := filterAtoms(m.Env.Atoms, excl)
 		valid++
-		exactFloat = m.Exact
 		same := valsClose(va, vb)
 		exactFloat = false
 		if !same {
